@@ -29,13 +29,15 @@ SHAPE = ("shape", ["debug", "release"])
 DEND = ("dend", ["debug"])
 
 ALGO2 = ("algo", ["debug", "release"])
+# operation sequences on the internal components (Active, LinkageUnionFind, LinkageHeap)
+COMP = ("comp", ["debug", "release"])
 
 PROPS = {
-    "C01": dict(streams=[ALGO, HIST], oracles=[dict(name="wf", profiles=["debug"])],
+    "C01": dict(streams=[ALGO, HIST, COMP], oracles=[dict(name="wf", profiles=["debug"])],
                 assumptions=["distinctness of merged clusters and size = sum of sizes are not theorems (C01_full is stated, not proved)"]),
     "C02": dict(streams=[ALGO, HIST], translators=["formulas"], oracles=[dict(name="criterion", profiles=["debug"])],
-                assumptions=["theorems are exact-rational one-merge identities; the invariant over whole runs and the float tolerance are measured by the oracle"]),
-    "C03": dict(streams=[ALGO, HIST], oracles=[dict(name="greedy", profiles=["debug"])],
+                assumptions=["whole-run theorems are about primitive_with in exact rational arithmetic (single/complete: any strict weak order); the float tolerance and the three fast algorithms are measured by correspondence and oracle"]),
+    "C03": dict(streams=[ALGO, HIST, COMP], oracles=[dict(name="greedy", profiles=["debug"])],
                 assumptions=["theorem covers the primitive algorithm on the working matrix; order laws of `<` (transitive, irreflexive) are hypotheses that IEEE comparison satisfies"]),
     "C04": dict(streams=[ALGO, HIST], oracles=[dict(name="single_exact", profiles=["debug"])],
                 assumptions=["threshold-component and MST-weight characterisations are checked by the oracle, not proved"]),
@@ -48,7 +50,7 @@ PROPS = {
     "C11": dict(streams=[ALGO], oracles=[dict(name="permute", profiles=["debug"])],
                 assumptions=["only the symmetry of the update formulas is a theorem"]),
     "C12": dict(streams=[ALGO2, HIST], oracles=[dict(name="safety", profiles=["debug", "release"])],
-                assumptions=["absence of panics for n >= 2 and finiteness for arithmetic methods are measured, not proved"]),
+                assumptions=["totality is a theorem for mst and primitive; for nnchain/generic and finiteness of arithmetic methods it is measured, not proved"]),
     "C14": dict(streams=[("cost", ["debug"])], translators=["tables"], oracles=[dict(name="cost", profiles=["debug"])],
                 assumptions=["nnchain: the bound is measured (count equality with the model + adversarial search), only mst has a theorem"]),
     "C07": dict(
@@ -58,7 +60,7 @@ PROPS = {
         assumptions=["no-wrap theorem hypothesis n < 2^32"],
     ),
     "C08": dict(
-        streams=[HIST, ALGO],
+        streams=[HIST, ALGO, COMP],
         oracles=[dict(name="reuse", profiles=["debug", "release"])],
         assumptions=["thread independence is not expressible in the (pure) model: covered by the 16-thread differential run of the oracle only"],
     ),
